@@ -128,9 +128,14 @@ def _case(draw, pid, tier):
             st.sampled_from([None, 1, 2, 3, 5, 8, 13, 18, 30]))
     ops = []
     for _ in range(draw(st.integers(1, 5 if thorough else 4))):
-        kind = draw(st.sampled_from(["compute", "compute", "render", "render", "fault"]))
+        kind = draw(st.sampled_from(["compute", "compute", "render", "render", "fault"]
+                                    + (["recolour"] if pid == "C15" else [])))
         op = {"op": kind, "orient": draw(st.sampled_from(["V", "H"])),
               "fresh": draw(st.integers(0, 3)) == 0}
+        if kind == "recolour":
+            # between two drawings the caller gives a node another colour (or none) in place
+            op["node"] = draw(st.integers(0, 2 * nobj - 2))
+            op["color"] = draw(st.sampled_from(COLORS + [None]))
         if kind == "fault":
             op["fault"] = draw(st.sampled_from(["exit", "absent", "drop", "dup"]))
             op["at"] = draw(st.integers(0, 12))
@@ -622,6 +627,21 @@ def execute(case, focus=None):
         run.nontrivial = True
     n_computes = 0
     for idx, op in enumerate(case["ops"]):
+        if op["op"] == "recolour":
+            v = world.onodes[op["node"] % len(world.onodes)]
+            oidx_rec = canon.ete_clade_index(rec.input.object_tree)
+            node = next(n for n, c in oidx_rec.items() if c == v.clade)
+            if op["color"] is None:
+                world.colors.pop(v, None)
+                if "color" in node.features:
+                    node.del_feature("color")
+            else:
+                world.colors[v] = op["color"]
+                node.add_feature("color", op["color"])
+            run.probe("recoloured_in_place")
+            run.nontrivial = True
+            run.event(idx, "recolour", op["node"], op["color"])
+            continue
         orient = op["orient"]
         params = make_params(case, orient, op)
         over = op.get("params") or {}
@@ -1057,7 +1077,8 @@ def describe(pid):
                 "width + a simulated TeX peer (engine tectonic/xelatex/both, per-index or "
                 "per-text sizes 1-100/10/3, chatter lines) + history of 1-4 (5) operations "
                 "(compute V/H, render V/H, on the same object or a fresh parse, a quarter of them "
-                "with a changed label width or drawing parameter, peer faults: "
+                "with a changed label width or drawing parameter, for C15 also a node re-coloured in "
+                "place between two drawings, peer faults: "
                 "non-zero exit, engine absent, dropped / duplicated measurement line). "
                 "Non-trivial: several computes, a fault fired, chatter, perturbed parameters, "
                 "colours or labels present; distinct = distinct case digest.",
@@ -1079,7 +1100,7 @@ def describe(pid):
             "C14": ["mirror_compared", "computed_twice", "fresh_parse", "transfer", "losses",
                     "peer_chatter", "params_changed_within_history"],
             "C15": ["coloured", "nested_colour", "labelled", "wrapped_label", "fresh_parse",
-                    "loss_colour_checked",
+                    "loss_colour_checked", "recoloured_in_place",
                     "params_changed_within_history"],
         }[pid],
     }
